@@ -35,7 +35,16 @@ type c11Case struct {
 	RotateN    int          `json:"rotateN"`
 	SearchN    int          `json:"searchN"`
 	GoMaxProcs int          `json:"gomaxprocs"`
+	// injected yield points (build-time overlay): at about YieldPermille/1000 of the hits a goroutine yields or
+	// sleeps up to YieldMaxUs microseconds; 0 = off. The points sit on both sides of the unrotated -> rotated
+	// hand-over (query listing, readers, rotation, segstore creation).
+	YieldPermille int   `json:"yieldPermille,omitempty"`
+	YieldMaxUs    int   `json:"yieldMaxUs,omitempty"`
+	YieldSeed     int64 `json:"yieldSeed,omitempty"`
 }
+
+// yieldBuilt is set by yieldops_test.go when the binary carries the yield-point overlay.
+var yieldBuilt bool
 
 var idxNames = []string{"c11a", "c11b", "c11c"}
 
@@ -82,6 +91,11 @@ func genC11(t *rapid.T) *c11Case {
 	cs.RotateN = rapid.IntRange(1, 12).Draw(t, "rotateN")
 	cs.SearchN = rapid.IntRange(1, 12).Draw(t, "searchN")
 	cs.GoMaxProcs = rapid.SampledFrom([]int{1, 2, 4, 16}).Draw(t, "gomaxprocs")
+	if rapid.IntRange(0, 2).Draw(t, "yield") > 0 {
+		cs.YieldPermille = rapid.SampledFrom([]int{5, 20, 60, 150}).Draw(t, "yieldPermille")
+		cs.YieldMaxUs = rapid.SampledFrom([]int{0, 200, 1000, 3000}).Draw(t, "yieldMaxUs")
+		cs.YieldSeed = int64(rapid.IntRange(1, 1<<30).Draw(t, "yieldSeed"))
+	}
 	if os.Getenv("VERIF_C11_HEAVY") != "" {
 		// development aid: only programmes that search while rotating
 		if cs.Rotators == 0 {
@@ -207,6 +221,12 @@ func checkC11(cs *c11Case, o *pt.Obs) error {
 	defer c.Close()
 	if err := c.Set("gomaxprocs", int64(cs.GoMaxProcs)); err != nil {
 		return err
+	}
+	if cs.YieldPermille > 0 && yieldBuilt {
+		if err := c.Call(&sut.Req{Op: "yield_arm", Ints: map[string]int64{"seed": cs.YieldSeed, "permille": int64(cs.YieldPermille), "maxMicros": int64(cs.YieldMaxUs)}}, nil); err != nil {
+			return err
+		}
+		o.Class("yield_points_on")
 	}
 	body, _ := json.Marshal(&prog)
 	var res progResult
